@@ -64,7 +64,27 @@ pub fn run(ctx: &mut Ctx) {
             let mut d = Object::new();
             d.insert("rows".into(), Value::Array(vec![Value::Array(vec![Value::scalar(1i64), Value::scalar(2i64)]), Value::Array(vec![]), Value::Array(vec![Value::scalar(3i64)])]));
             d.insert("rows2".into(), Value::Array(vec![Value::Array(vec![]), Value::Array(vec![Value::scalar(7i64)]), Value::Array(vec![])]));
-            case(ctx, &parser, "else-interrupt", t, &d);
+            // reference, from the statement alone: the interrupt in the else branch acts on the outer loop
+            let rows_v: Vec<Vec<i64>> = if rows == "rows" { vec![vec![1, 2], vec![], vec![3]] } else { vec![vec![], vec![7], vec![]] };
+            let mut want = String::new();
+            for (r, row) in rows_v.iter().enumerate() {
+                want.push_str(&format!("<{}:", r + 1));
+                let sel: Vec<i64> = if lim == Some(0) { vec![] } else { row.clone() };
+                if sel.is_empty() {
+                    want.push_str("empty");
+                    if matches!(intr, Node::Break) {
+                        break;
+                    } else {
+                        continue;
+                    }
+                }
+                for x in sel {
+                    want.push_str(&x.to_string());
+                }
+                want.push_str("|end>");
+            }
+            want.push_str("after");
+            case(ctx, &parser, &format!("else-interrupt:{}", crate::proto::hex(&want)), t, &d);
         }
     }
     // a counted range is collected into a vector BEFORE limit/offset are applied: the full i64 range
